@@ -29,7 +29,7 @@ class MetadataExprParser(object):
             raise MetadataExprParsingError('Metadata expression must start with "%"')
 
         if '.' in metadata_expr:
-            section_index, metadata_name = metadata_expr[1:].split('.')
+            section_index, metadata_name = metadata_expr[1:].split('.', 1)
             try:
                 section_index = int(section_index)
             except ValueError:
